@@ -1034,6 +1034,27 @@ class Machine:
         st.trace.append(ev)
         return ev
 
+    def single_pointer_field(self, val, ty, depth=0):
+        """(holder Adt, field index) of the only raw-pointer-typed scalar field inside a crate struct value, else None."""
+        found = []
+
+        def walk(v, t, d):
+            if d > 3 or not isinstance(v, Adt) or not isinstance(t, dict) or t.get("k") != "adt":
+                return
+            a_ = self.facts.adts.get(t.get("path"))
+            if not a_ or len(a_["variants"]) != 1:
+                return
+            for i, f in enumerate(a_["variants"][0]["fields"]):
+                if i >= len(v.fields):
+                    break
+                ft = f["ty"]
+                if ft.get("k") == "ptr" and isinstance(v.fields[i], Int):
+                    found.append((v, i))
+                elif ft.get("k") == "adt":
+                    walk(v.fields[i], ft, d + 1)
+        walk(val, ty, depth)
+        return found[0] if len(found) == 1 else None
+
     def fresh(self, st, name, ty, tag="ret"):
         idx = sum(1 for e in st.trace if e.name == name)
         e = E(tag, (name, idx))
@@ -1255,7 +1276,8 @@ class Machine:
     # ---------------------------------------------------------------- calls
     def callee_name(self, c):
         r = c.get("resolved")
-        return (r["path"] if r else c["path"]), (r["args"] if r else c["args"]), (r["local"] if r else c["local"])
+        from .facts import canon_foreign
+        return canon_foreign((r["path"] if r else c["path"]), c.get("foreign")), (r["args"] if r else c["args"]), (r["local"] if r else c["local"])
 
     def do_call(self, st, fr, t):
         c = t["callee"]
@@ -1314,7 +1336,18 @@ class Machine:
         if body is not None and not c["foreign"]:
             if name in self.summaries or name in self.auto_summaries:
                 ret = self.fresh(st, name, dest_ty)
-                self.event(st, "summary", name, args, ret, span, extra={"effectful": self.facts.effectful(name)})
+                ev_ret = ret
+                if isinstance(ret, Adt) and self.facts.effectful(name):
+                    # a summarised helper that hands its result back inside a crate struct (`Trampoline { ptr, size }`): the event stands for
+                    # the one raw pointer in it, which is given the plain result expression the rules know an allocation by
+                    leaf = self.single_pointer_field(ret, dest_ty)
+                    if leaf is not None:
+                        holder, i = leaf
+                        old = holder.fields[i]
+                        idx_ = sum(1 for e in st.trace if e.name == name)
+                        holder.fields[i] = Int(old.w, old.signed, E("ret", (name, idx_), old.w))
+                        ev_ret = holder.fields[i]
+                self.event(st, "summary", name, args, ev_ret, span, extra={"effectful": self.facts.effectful(name)})
                 return self.finish_call(st, fr, t, dest_lv, ret)
             if name in self.stop_at:
                 ret = self.fresh(st, name, dest_ty)
